@@ -54,7 +54,7 @@ class Unit:
     """one harness binary: source + defines + build configuration"""
 
     def __init__(self, name, src, defs=(), build='ndebug', flags=(), link=('ref',), shards=1, args=(), cxx=None,
-                 ldflags=(), extra_srcs=(), timeout=None, run_env=None):
+                 ldflags=(), extra_srcs=(), timeout=None, run_env=None, bisect=None, label=None):
         self.name, self.src, self.defs, self.build = name, src, list(defs), build
         self.flags, self.link, self.shards, self.args = list(flags), list(link), shards, list(args)
         self.cxx = cxx or CXX
@@ -62,13 +62,18 @@ class Unit:
         self.extra_srcs = list(extra_srcs)
         self.timeout = timeout
         self.run_env = run_env
+        # bisect: list of (label, defs) — if this unit does not compile, each variant is compiled on its own so
+        # that the entries that cannot be instantiated are named individually (and the others still run)
+        self.bisect = bisect
+        self.label = label  # set on bisected variants: names the single entry the variant contains
+        self.variant_defs = []
 
     def all_flags(self):
         f = list(BASEFLAGS)
         if self.build == 'ndebug':
             f.append('-DNDEBUG')
         f += self.flags
-        f += ['-D' + d for d in self.defs]
+        f += ['-D' + d for d in self.defs + self.variant_defs]
         return f
 
     def key(self):
@@ -80,7 +85,17 @@ class Unit:
         return h.hexdigest()[:16]
 
     def stem(self):
-        return sanitize(os.path.basename(self.src).split('.')[0] + '_' + self.name + '_' + self.build)
+        return sanitize(os.path.basename(self.src).split('.')[0] + '_' + self.name + '_' + self.build + ('_' + self.label if self.label else ''))
+
+    def variant(self, label, defs):
+        import copy
+        v = copy.copy(self)
+        v.defs = [d for d in self.defs if not d.startswith('VF_FN_ALL')]
+        v.variant_defs = list(defs)
+        v.label = label
+        v.bisect = None
+        v.shards = 1
+        return v
 
     def binary(self):
         return os.path.join(BUILD, 'bin', self.stem() + '.' + self.key())
@@ -143,6 +158,17 @@ def build_units(units, jobs):
     res = []
     with cf.ThreadPoolExecutor(max_workers=jobs) as ex:
         for r in ex.map(build_unit, units):
+            res.append(r)
+        # bisection of units that do not compile
+        variants = []
+        keep = []
+        for (u, ok, log) in res:
+            if not ok and u.bisect:
+                variants += [u.variant(lbl, defs) for (lbl, defs) in u.bisect]
+            else:
+                keep.append((u, ok, log))
+        res = keep
+        for r in ex.map(build_unit, variants):
             res.append(r)
     return res
 
@@ -342,7 +368,7 @@ def aggregate(spec, prop, tier, seed, results, py_results, build_fail, t0, t_bui
     # compile failures are findings of the property when the spec says so, infrastructure errors otherwise
     for u, log in build_fail:
         first = [l for l in log.splitlines() if 'error' in l][:3]
-        key = '%s/does_not_compile/%s/%s' % (prop, u.name, u.build)
+        key = '%s/does_not_compile/%s/%s' % (prop, u.name, (u.label or u.build))
         failures.append((key, 'does_not_compile', u.name, u.build, dict(key=key, check='does_not_compile', detail=dict(first_errors=first, log_tail=log[-1500:]))))
     # a harness that crashes, aborts or hangs is a violation (it does neither on the unchanged tree)
     for u, shard, rc, err in infra_errors:
